@@ -347,6 +347,52 @@ def gen_random(rng, n_ops, thr, stale_rate, max_objs):
     return ops
 
 
+def gen_wide(rng, n_objs, thr):
+    """one guard holding hundreds of roots, many of them several times (the VM's register
+    guard looks like this); collections interleaved with single unguards of multiply-rooted
+    objects. Handles are dropped right after allocation so the history stays clean."""
+    ab = Abstract()
+    ops = []
+
+    def emit(o):
+        ops.append(o)
+        ab.step(o, None)
+    emit("CG")
+    emit("ST %d" % thr)
+    keep = []
+    for i in range(n_objs):
+        emit("A 0")
+        h = len(ab.handles) - 1
+        emit("SV %d %d" % (h, 5000 + i))
+        if keep and rng.chance(1, 3):
+            emit("L %d %d" % (rng.choice(keep), h))
+        if rng.chance(1, 4):
+            emit("GC 0 %d" % h)          # rooted twice
+        if rng.chance(1, 12):
+            emit("GC 0 %d" % h)          # or three times
+        if len(keep) < 60 and rng.chance(1, 8):
+            keep.append(h)
+        elif rng.chance(4, 5):
+            emit("D %d" % h)
+        else:
+            keep.append(h)
+    for _ in range(6):
+        emit("COL")
+        for h in rng.shuffle(keep)[:25]:
+            if ab.handles[h] is not None:
+                emit("UG 0 %d" % h)      # removes ONE of the entries
+        emit("COL")
+        for h in keep:
+            if ab.handles[h] is not None and not ab.objs[ab.handles[h]]["dead"] and ab.handles[h] in ab.reach():
+                emit("R %d" % h)
+        # drop handles of objects that are about to become garbage
+        r = ab.reach()
+        for h in keep:
+            if ab.handles[h] is not None and ab.handles[h] not in r:
+                emit("D %d" % h)
+    return ops
+
+
 def gen_stale(rng, n):
     """histories built around a swept-then-reused slot with surviving handles"""
     out = []
@@ -537,6 +583,12 @@ def run(chk):
         ops = gen_random(rng, n_ops, thr, 0 if i % 3 else 30, 1200 if big else 400)
         rnd.append(finish_history(ops, count_handles(ops)))
     plan.append(("random long histories (chunk and guard-pool boundaries crossed)", rnd))
+    wide = []
+    for n_objs in ([300, 530, 800] if chk.tier == "quick" else [200, 300, 515, 530, 800, 1040, 1300, 2100]):
+        for thr in (0, 100):
+            ops = gen_wide(rng, n_objs, thr)
+            wide.append(finish_history(ops, 0))
+    plan.append(("wide guards: hundreds of roots with duplicates, single unguards between collections", wide))
     st = gen_stale(rng, 400 if chk.tier == "quick" else 5000)
     plan.append(("stale-handle stream (malformed use after sweep and reuse)", [finish_history(h, count_handles(h)) for h in st]))
 
